@@ -37,6 +37,10 @@ def check(ctx):
   from . import c10
   ctx.rule('C10.R1', 'shared with C10: the timer never fires before the stored deadline (quantisation rounds up), which the serial transports\' expiry check relies on')
   c10.r1(ctx, prog.func('scales/timer_queue.py', 'TimerQueue.Schedule'))
+  from . import c13
+  ctx.rule('C13.R4', 'shared with C13: the Tdiscarded body and the frame header carry the 24-bit tag as its three big-endian bytes (a discard that names another tag leaves the timed-out request '
+                     'running on the peer and may cancel a live one)')
+  c13.r4_bits(ctx)
 
 
 def r2(ctx):
